@@ -9,13 +9,13 @@ use std::sync::{Arc, Mutex};
 
 const POOL: usize = 2;
 
-enum H<A: BoundedOgreAllocator<Tr> + 'static> { Shared(OgreArc<Tr, A>), Unique(OgreUnique<Tr, A>) }
+enum H<A: BoundedOgreAllocator<Tr> + Send + Sync + 'static> { Shared(OgreArc<Tr, A>), Unique(OgreUnique<Tr, A>) }
 impl<A: BoundedOgreAllocator<Tr> + Send + Sync + 'static> H<A> {
     fn read(&self) -> Result<u32, String> { match self { H::Shared(h) => Tr::read(h), H::Unique(h) => Tr::read(h) } }
     fn addr(&self) -> usize { match self { H::Shared(h) => &**h as *const Tr as usize, H::Unique(h) => &**h as *const Tr as usize } }
 }
 
-pub struct ArcSys<A: BoundedOgreAllocator<Tr> + 'static> {
+pub struct ArcSys<A: BoundedOgreAllocator<Tr> + Send + Sync + 'static> {
     // declaration order = drop order: handles release into the allocator
     handles: Vec<(H<A>, u32)>,
     alloc: Box<A>,
